@@ -266,6 +266,35 @@ theorem setStr_yes_missing (b : Binds) (st : Store) (locked : Bool) (k : String)
     (hk : b.lookup k = none) : setStr b st locked .yes k value vals = .error .key := by
   simp [setStr, convertInplace, hk]
 
+/-- **basic indexing is a view, advanced indexing a copy**: one advanced item anywhere in the index makes
+the result a copy; an index made of integers, slices, `None`, `...` and 0-d integer tensors is a view -/
+theorem indexClass_spec (ix : List IxItem) :
+    (indexClass ix = .view ↔ ∀ it ∈ ix, it.basic = true) ∧ (indexClass ix = .copy ↔ ∃ it ∈ ix, it.basic = false) := by
+  unfold indexClass
+  by_cases h : ix.all IxItem.basic = true
+  · simp only [h, if_true, true_iff]
+    have h' := List.all_eq_true.mp h
+    refine ⟨h', ?_⟩
+    simp only [reduceCtorEq, false_iff, not_exists, not_and]
+    intro it hit; simp [h' it hit]
+  · simp only [h, if_false, reduceCtorEq, false_iff, true_iff]
+    have : ¬ ∀ it ∈ ix, it.basic = true := fun hh => h (List.all_eq_true.mpr hh)
+    refine ⟨this, ?_⟩
+    have key : ∀ (l : List IxItem), ¬ (l.all IxItem.basic = true) → ∃ it ∈ l, it.basic = false := by
+      intro l
+      induction l with
+      | nil => intro hl; simp at hl
+      | cons a l ih =>
+        intro hl
+        cases ha : a.basic with
+        | false => exact ⟨a, by simp, ha⟩
+        | true =>
+          have : ¬ (l.all IxItem.basic = true) := by
+            intro hl2; apply hl; simp [List.all_cons, ha, hl2]
+          obtain ⟨it, hit, hb⟩ := ih this
+          exact ⟨it, List.mem_cons_of_mem _ hit, hb⟩
+    exact key ix h
+
 /-! ## 5. contiguous() -/
 
 /-- **`contiguous()` copies exactly the non-contiguous entries.**  For a tensordict with distinct
